@@ -16,7 +16,7 @@
 From Coq Require Import List NArith.
 From Coq Require Import Permutation.
 From Jamm Require Import Bytes Codec Tree Spec Cursor SearchFacts CursorFacts SeekFacts CodecFacts.
-From Jamm Require Engine EngineAbs SpecPath EngineFacts EngineMergeFacts EngineModifyFacts EnginePathFacts EngineSpillFacts SpecPathFacts EngineRebalanceFacts EngineBridgeFacts EnginePins EngineTxInvFacts EngineSpillBucketFacts EngineRefines EngineOwnDefs EngineOwnSpill EngineAllocInv EngineDepth EngineNoPanic EngineSpillDepth.
+From Jamm Require Engine EngineAbs SpecPath EngineFacts EngineMergeFacts EngineModifyFacts EnginePathFacts EngineSpillFacts SpecPathFacts EngineRebalanceFacts EngineBridgeFacts EnginePins EngineTxInvFacts EngineSpillBucketFacts EngineRefines EngineOwnDefs EngineOwnSpill EngineAllocInv EngineDepth EngineNoPanic EngineSpillDepth EngineReadBridge.
 From Jamm Require Consts CLayout.
 From Coq Require String.
 Import Coq.Strings.String.StringSyntax. Delimit Scope string_scope with string.
@@ -317,3 +317,57 @@ Theorem C01_engine_invariant_with_depth_kept : forall (st : Engine.db) (ops : li
   Engine.run_tx st ops ord = Engine.Ok st' -> EngineRefines.readable st' -> EngineSpillDepth.db_okd st'.
 Proof. exact EngineSpillDepth.run_tx_okd. Qed.
 Print Assumptions C01_engine_invariant_with_depth_kept.
+
+(* ==== END TO END (engine model + read path): after ANY history of transactions from the empty database, at any page size, for
+   ANY bucket reached by a path of names, the cursor machine of the read path (point lookup, full scan, every range, seek), run on
+   the tree decoded from the engine's committed pages, answers exactly what the reference map answers after the same history;
+   and a path that is not a bucket in the reference is not one in the file. (cursor_agrees bundles get / scan / range / seek.) ==== *)
+Theorem C01_committed_data_reads_back_as_reference : forall (P : N) (txs : list (list Engine.op * list Bytes.bytes)) (st' : Engine.db),
+  (0 < P)%N -> EngineAllocInv.txs_ok' (Engine.init_db P) txs ->
+  EngineRefines.run_txs (Engine.init_db P) txs = Engine.Ok st' ->
+  forall path : list Bytes.bytes,
+  match Spec.get_at path (EngineRefines.sem_txs txs (Spec.SBucket 0 0 nil)) with
+  | Some (Spec.SBucket o x es) =>
+      exists (r : N) (t : Tree.tree),
+        EngineReadBridge.root_at (Engine.d_disk st') (Engine.d_root st') path = Some r /\
+        EngineReadBridge.bucket_tree (Engine.d_disk st') r = Some t /\
+        EngineReadBridge.NH.wf_tree_nh t = true /\ EngineReadBridge.cursor_agrees t (Spec.SBucket o x es)
+  | _ => EngineReadBridge.root_at (Engine.d_disk st') (Engine.d_root st') path = None
+  end.
+Proof. exact EngineReadBridge.history_read. Qed.
+Print Assumptions C01_committed_data_reads_back_as_reference.
+
+(* the same on BYTES: the file image made of the encoded pages (any padding bytes), decoded by the Gallina page decoder;
+   `page_fits` (each node fits its page run; fields below 2^64) is decidable and is what inv_check's element bounds check per file *)
+Theorem C01_committed_bytes_read_back_as_reference : forall (P0 : N) (txs : list (list Engine.op * list Bytes.bytes)) (st' : Engine.db)
+    (pad : N -> Byte.byte) (P : N),
+  (0 < P0)%N -> EngineAllocInv.txs_ok' (Engine.init_db P0) txs ->
+  EngineRefines.run_txs (Engine.init_db P0) txs = Engine.Ok st' -> (0 < P)%N ->
+  (forall (p : N) (a : Engine.apage), In p (EngineOwnDefs.Rof st') ->
+     Engine.dget (Engine.d_disk st') p = Some a -> EngineReadBridge.BytesLevel.page_fits P p a) ->
+  let rd := Codec.reader_of (EngineReadBridge.BytesLevel.image pad P (Engine.d_disk st') (EngineOwnDefs.Rof st')
+                               (Bytes.zeros (N.to_nat (Engine.d_np st' * P)))) in
+  forall path : list Bytes.bytes,
+  match Spec.get_at path (EngineRefines.sem_txs txs (Spec.SBucket 0 0 nil)) with
+  | Some (Spec.SBucket o x es) =>
+      exists (r : N) (t : Tree.tree),
+        EngineReadBridge.BytesLevel.root_at_b rd P (Engine.d_root st') path = Some r /\
+        Tree.build_tree Engine.fuel0 rd P r = Codec.Ok t /\
+        EngineReadBridge.NH.wf_tree_nh t = true /\ EngineReadBridge.cursor_agrees t (Spec.SBucket o x es)
+  | _ => EngineReadBridge.BytesLevel.root_at_b rd P (Engine.d_root st') path = None
+  end.
+Proof. exact EngineReadBridge.BytesLevel.history_image_read. Qed.
+Print Assumptions C01_committed_bytes_read_back_as_reference.
+
+Theorem C01_put_then_get : forall (P : N) (txs : list (list Engine.op * list Bytes.bytes)) (ops : list Engine.op)
+    (ord path : list Bytes.bytes) (k v : Bytes.bytes) (st' : Engine.db) (m' : Spec.snode),
+  let hist := (txs ++ (ops ++ Engine.Put path k v :: nil, ord) :: nil)%list in
+  (0 < P)%N -> EngineAllocInv.txs_ok' (Engine.init_db P) hist ->
+  EngineRefines.run_txs (Engine.init_db P) hist = Engine.Ok st' ->
+  EngineAbs.sem_at path (EngineAbs.sem_put k v) (EngineAbs.sem_tx ops (EngineRefines.sem_txs txs (Spec.SBucket 0 0 nil))) = Some m' ->
+  (forall b : Spec.snode, Spec.get_at path m' = Some b -> EngineReadBridge.ref_get b k <> Some (Spec.IBk k)) ->
+  exists (r : N) (t : Tree.tree),
+    EngineReadBridge.root_at (Engine.d_disk st') (Engine.d_root st') path = Some r /\
+    EngineReadBridge.bucket_tree (Engine.d_disk st') r = Some t /\ Cursor.get t k = Some (Spec.IKv k v).
+Proof. exact EngineReadBridge.put_then_get_kv. Qed.
+Print Assumptions C01_put_then_get.
